@@ -341,11 +341,11 @@ def expected_cases(draw, n_max: int, procs):
     games, cls = draw(game_specs(n, R, sam_ok=False))
     nexp = (1 << n) - n - 2
     # the whole horizon at n = 3 (the last reveal is where l-inf finally drops after a plateau), short ones otherwise
-    T = draw(st.sampled_from(([nexp, nexp] if n == 3 else []) + [t for t in (3, 4, 2, 5, 1) if t <= nexp]))
+    T = draw(st.sampled_from(([nexp, nexp] if n == 3 else []) + [t for t in (3, 4, 2, 5, 1, 0) if t <= nexp]))
     return {"kind": "expected", "cfg": {"n": n, "games": games, "computer": draw(st.sampled_from(["superadditive", "superadditive_cached"])),
                                          "gap": draw(st.sampled_from(["linf_norm", "exploitability", "linf_norm", "l1_norm"])), "budget": None},
             "repetitions": R, "max_steps": T, "procs": procs, "rng": draw(st.sampled_from([None, None, 5])),
-            "compare_best": n == 3 or T <= 2}     # flat steps (no single reveal lowers the mean gap) are typical for linf_norm
+            "compare_best": (n == 3 or T <= 2) and T >= 1}     # flat steps (no single reveal lowers the mean gap) are typical for linf_norm
 
 
 def _sample(case):
